@@ -463,6 +463,17 @@ func runC07(c *eng.Ctx) {
 			)
 		}
 	}
+	// the set that matters is the final one: a Build in the middle must not make a difference
+	for _, life := range []godi.Lifetime{godi.Singleton, godi.Transient} {
+		directed = append(directed,
+			&Spec{RebuildAfter: 1, Regs: []Reg{mkReg("PosA_0_2", life), mkReg("Leaf_K1_a", godi.Scoped)}},
+			&Spec{RebuildAfter: 1, Regs: []Reg{mkReg("InU_0_2_Group", life), mkReg("Leaf_K1_a", godi.Scoped, withGroup("g"))}},
+			&Spec{RebuildAfter: 2, Regs: []Reg{mkReg("Leaf_K1_b", godi.Singleton, withGroup("g")), mkReg("InU_0_2_Group", life), mkReg("Leaf_K1_a", godi.Scoped, withGroup("g"))}},
+			&Spec{RebuildAfter: 1, Regs: []Reg{mkReg("InU_0_2_Opt", life), mkReg("Leaf_K1_a", godi.Scoped)}},
+			&Spec{RebuildAfter: 1, Regs: []Reg{mkReg("InU_0_2_Keyed", life), mkReg("Leaf_K1_a", godi.Scoped, withName("k"))}},
+			&Spec{RebuildAfter: 1, Regs: []Reg{mkReg("InU_0_2_Iface", life), mkReg("Leaf_K1_a", godi.Scoped, withAs("IK1"))}},
+		)
+	}
 	for _, s := range directed {
 		idx, mine2 := cr.next()
 		if !mine2 {
@@ -485,7 +496,7 @@ func runC07(c *eng.Ctx) {
 		if k%2 == 1 {
 			want = ClsLifetime
 		}
-		s, m := GenSpec(rng, GenOpts{Want: want, Specials: k%3 == 0 || k%4 >= 2, Values: true, Removes: k%4 >= 2, MultiAlias: k%4 >= 2})
+		s, m := GenSpec(rng, GenOpts{Want: want, Specials: k%3 == 0 || k%4 >= 2, Values: true, Removes: k%4 >= 2, MultiAlias: k%4 >= 2, Rebuild: k%3 == 1})
 		if s == nil {
 			continue
 		}
@@ -721,6 +732,19 @@ func runC08(c *eng.Ctx) {
 		// D11: singleton consuming a group whose members have dependencies
 		{Regs: []Reg{mkReg("Leaf_K0_a", godi.Singleton), mkReg("PosA_1_1", godi.Singleton, withGroup("g")), mkReg("PosB_1_1", godi.Singleton, withGroup("g")), mkReg("InU_2_2_Group", godi.Singleton)}},
 	}
+	// acceptance: a constructor that names the same dependency identity more than once
+	for _, l := range allLifetimes {
+		depLife := godi.Transient
+		if l == godi.Scoped {
+			depLife = godi.Scoped
+		}
+		directed = append(directed,
+			&Spec{Regs: []Reg{mkReg("Leaf_K1_a", depLife), mkReg("Twice_K0", l)}},
+			&Spec{Regs: []Reg{mkReg("Leaf_K1_b", godi.Singleton), mkReg("Leaf_K1_a", depLife, withGroup("g")), mkReg("TwiceIn_K2", l)}},
+			&Spec{Regs: []Reg{mkReg("Leaf_S0_a", depLife), mkReg("Leaf_S5_a", godi.Singleton), mkReg("Twice_S4", l), mkReg("VoidS4", godi.Scoped)}},
+		)
+	}
+
 	for _, s := range directed {
 		idx, mine := cr.next()
 		if !mine {
@@ -737,7 +761,7 @@ func runC08(c *eng.Ctx) {
 		}
 		rng := cr.rng(idx)
 		full := k%6 == 5
-		s, m := GenSpec(rng, GenOpts{Want: ClsOK, Specials: true, Values: k%4 == 0, MultiAlias: full || k%3 == 2, OutGroup: full, MultiOpt: full, Removes: k%3 == 2})
+		s, m := GenSpec(rng, GenOpts{Want: ClsOK, Specials: true, Values: k%4 == 0, MultiAlias: full || k%3 == 2, OutGroup: full, MultiOpt: full, Removes: k%3 == 2, Rebuild: k%5 == 0})
 		if s == nil {
 			continue
 		}
